@@ -66,7 +66,9 @@ func runC09(c *core.Ctx) core.Meta {
 		}
 		c.MarkAnalysed(next)
 		g := core.BuildGraph(next, 2, func(cal *ssa.Function) bool { return cal.Pkg == pd.Pkg })
-		reserves := g.NodesWhere(func(n *core.Node) bool { return n.Frame.Parent == nil && invokes(n.Instr, "/resource", "ReserveResourceForWG") })
+		reserves := g.NodesWhere(func(n *core.Node) bool {
+			return n.Frame.Parent == nil && invokes(n.Instr, "/resource", "ReserveResourceForWG")
+		})
 		if len(reserves) != 1 {
 			st1.Ob(false)
 			c.ReportAt("R09.1", next, next.Pos(), tn+":reserve-count", fmt.Sprintf("%d calls of ReserveResourceForWG in Next; the sibling algorithms have exactly one", len(reserves)))
@@ -211,7 +213,7 @@ func runC09(c *core.Ctx) core.Meta {
 	// ---------------- R09.2 / R09.3 / R09.4 dispatcher ----------------
 	RunProto(c, &ProtoCfg{
 		AllEffectsAfterSend: true,
-		RuleBase: "R09.2", Pkg: dispPkg, FloorSends: 2,
+		RuleBase:            "R09.2", Pkg: dispPkg, FloorSends: 2,
 		Effects: []Effect{
 			RetrieveEffect,
 			FieldWriteEffect("currWG.valid-write", "dispatchLocation.valid"),
